@@ -332,6 +332,11 @@ func replyOutcome(p *Prog, f *FuncInfo, n ast.Node, v *types.Var, field *types.V
 			})
 			if uses {
 				g := p.Graph(lf)
+				// helpers called synchronously inside this goroutine run in it: a path of theirs that leaves through
+				// a done-source is a cancelled goroutine, not a dropped request
+				saved := replyInGoroutine
+				replyInGoroutine = true
+				defer func() { replyInGoroutine = saved }()
 				bad := g.MustPassBeforeExit(g.Entry(), true, func(m ast.Node) bool {
 					if ok, _ := replyOutcome(p, lf, m, v, field, depth+1); ok {
 						return true
@@ -357,7 +362,7 @@ func replyOutcome(p *Prog, f *FuncInfo, n ast.Node, v *types.Var, field *types.V
 	}
 	// synchronous helper that receives the request (or its reply channel) and discharges it on every path
 	for _, call := range callsIn(n) {
-		if ok, how := delegatedToFunc(p, f, call, v, field, depth, false); ok {
+		if ok, how := delegatedToFunc(p, f, call, v, field, depth, replyInGoroutine); ok {
 			return true, how
 		}
 	}
@@ -387,6 +392,9 @@ func replyOutcome(p *Prog, f *FuncInfo, n ast.Node, v *types.Var, field *types.V
 	}
 	return false, ""
 }
+
+// replyInGoroutine is set while the body of a goroutine the request was delegated to is examined.
+var replyInGoroutine bool
 
 // delegatedToFunc: call passes the request variable (or its reply channel) to a declared function of
 // the same package whose every path replies / parks / reports (or, for a goroutine, is cancelled).
